@@ -49,7 +49,7 @@ def check(ctx):
 
         def run(x):
             sv = Inst(fc, {"bounds": Inst(bc, {}, "self.bounds")}, "self")
-            bound = {p: Num(nf.sym(p)) for p in m.params[1:]}
+            bound = x.symbolic_args(m)
             bound.update(args or {})
             return x._exec_function(m, bound, sv, None, fc)
 
@@ -80,7 +80,7 @@ def check(ctx):
 
     def run_fit(x):
         sv = Inst(fc, {"bounds": Inst(bc, {}, "self.bounds")}, "self")
-        x._exec_function(m, {p: Num(nf.sym(p)) for p in m.params[1:]}, sv, None, fc)
+        x._exec_function(m, x.symbolic_args(m), sv, None, fc)
         # evaluate the fitted model the way curve_fit does - f(x, *params) with one parameter per entry of the
         # first guess - inside the same trace partition, so that its branches agree with fit()'s own
         cfe = [e for e in x.events if e.kind == "ext_call" and e.data["callee"] == "scipy.optimize.curve_fit"]
